@@ -24,10 +24,10 @@ from .source import AnalysisError
 # --------------------------------------------------------------------------
 # canonical atoms
 # --------------------------------------------------------------------------
-def canon_atom(e: ast.AST) -> Tuple[str, bool]:
+def _canon_atom(e: ast.AST) -> Tuple[str, bool]:
     """(canonical text, polarity): the expression is equivalent to `atom` if polarity else `not atom`"""
     if isinstance(e, ast.UnaryOp) and isinstance(e.op, ast.Not):
-        a, pol = canon_atom(e.operand)
+        a, pol = _canon_atom(e.operand)
         return a, not pol
     if isinstance(e, ast.Compare) and len(e.ops) == 1:
         l, r, op = e.left, e.comparators[0], e.ops[0]
@@ -70,10 +70,35 @@ def canon_atom(e: ast.AST) -> Tuple[str, bool]:
     if isinstance(e, ast.Call) and isinstance(e.func, ast.Name) and e.func.id == "len" and len(e.args) == 1:
         return f"bool({ast.unparse(e.args[0])})", True
     if isinstance(e, ast.Call) and isinstance(e.func, ast.Name) and e.func.id == "bool" and len(e.args) == 1:
-        return canon_atom(e.args[0])
+        return _canon_atom(e.args[0])
     if isinstance(e, ast.Constant):
         return ("True", bool(e.value))
     return f"bool({ast.unparse(e)})", True
+
+
+_LAST_INDEX = None
+
+
+def _norm_atom_text(a: str) -> str:
+    """x[len(x) - 1] is x[-1]"""
+    global _LAST_INDEX
+    if _LAST_INDEX is None:
+        import re as _re
+
+        _LAST_INDEX = _re.compile(r"([A-Za-z_][\w.]*)\[len\(\1\) - 1\]")
+    return _LAST_INDEX.sub(r"\1[-1]", a)
+
+
+def canon_atom(e: ast.AST) -> Tuple[str, bool]:
+    a, pol = _canon_atom(e)
+    if "[len(" in a:
+        a = _norm_atom_text(a)
+        # operands of a symmetric comparison were ordered before normalisation: re-order
+        if " == " in a and a.count(" == ") == 1:
+            l, r = a.split(" == ")
+            l, r = sorted([l, r])
+            a = f"{l} == {r}"
+    return a, pol
 
 
 class Cond:
